@@ -301,6 +301,23 @@ def copy_sharing(ctx, d1):
                 if rets and all(isinstance(r.value, ast.Subscript) for r in rets):
                     d1.ok(cons, '%s: taken by value through the X property (element read %s)' % (fld, src(rets[0].value)), f, e.stmt)
                     continue
+            # locals that merely name a field of self (stoichiometry = self._stoichiometry) are resolved before the value is judged
+            amap = {}
+            for e2 in p.events:
+                if e2 is e:
+                    break
+                if e2.kind == 'assign' and isinstance(e2.stmt, ast.Assign) and isinstance(e2.stmt.value, ast.Attribute) and src(e2.stmt.value.value) == 'self' \
+                        and isinstance(e2.node, ast.Name):
+                    amap[e2.node.id] = e2.stmt.value
+            if vnode is not None and amap:
+                import copy as _copy
+
+                class _R(ast.NodeTransformer):
+                    def visit_Name(self, nd):
+                        if isinstance(nd.ctx, ast.Load) and nd.id in amap:
+                            return _copy.deepcopy(amap[nd.id])
+                        return nd
+                vnode = ast.fix_missing_locations(_R().visit(_copy.deepcopy(vnode)))
             verdict, why = _copied(vnode, fld, kind, deep)
             if verdict:
                 d1.ok(cons, '%s: %s' % (fld, why), f, e.stmt)
